@@ -611,6 +611,174 @@ proof fn lemma_seek_lower_bound<C: Cursor>(cs: Seq<C>, k: Seq<u8>)
     }
 }
 
+// ---------------------------------------------------------------- the Reverse mirror
+// number of entries of a sorted table that are at or below (k, t)
+spec fn is_cle(s: Seq<Ent>, k: Seq<u8>, t: u64, p: int) -> bool {
+    &&& 0 <= p <= s.len()
+    &&& forall|i: int| 0 <= i < p ==> !kt_lt(k, t, #[trigger] s[i].key, s[i].ts)
+    &&& forall|i: int| p <= i < s.len() ==> kt_lt(k, t, #[trigger] s[i].key, s[i].ts)
+}
+spec fn cle(s: Seq<Ent>, k: Seq<u8>, t: u64) -> int { choose|p: int| is_cle(s, k, t, p) }
+proof fn scan_cle(s: Seq<Ent>, k: Seq<u8>, t: u64, c: int) -> (p: int)
+    requires sorted(s), 0 <= c <= s.len(), forall|i: int| 0 <= i < c ==> !kt_lt(k, t, #[trigger] s[i].key, s[i].ts)
+    ensures is_cle(s, k, t, p)
+    decreases s.len() - c
+{
+    if c == s.len() { c }
+    else if kt_lt(k, t, s[c].key, s[c].ts) {
+        assert forall|i: int| c <= i < s.len() implies kt_lt(k, t, #[trigger] s[i].key, s[i].ts) by {
+            if i > c { lemma_kt_trans(k, t, s[c].key, s[c].ts, s[i].key, s[i].ts); }
+        }
+        c
+    } else { scan_cle(s, k, t, c + 1) }
+}
+proof fn lemma_cle(s: Seq<Ent>, k: Seq<u8>, t: u64)
+    requires sorted(s)
+    ensures is_cle(s, k, t, cle(s, k, t))
+{
+    let p = scan_cle(s, k, t, 0);
+}
+proof fn lemma_cle_unique(s: Seq<Ent>, k: Seq<u8>, t: u64, p: int)
+    requires sorted(s), is_cle(s, k, t, p)
+    ensures p == cle(s, k, t)
+{
+    lemma_cle(s, k, t);
+    let q = cle(s, k, t);
+    if p < q { assert(kt_lt(k, t, s[p].key, s[p].ts)); } else if q < p { assert(kt_lt(k, t, s[q].key, s[q].ts)); }
+}
+// cle = clt, plus one exactly in the table that holds (k, t)
+proof fn lemma_cle_clt(s: Seq<Ent>, k: Seq<u8>, t: u64)
+    requires sorted(s)
+    ensures
+        clt(s, k, t) <= cle(s, k, t) <= clt(s, k, t) + 1,
+        cle(s, k, t) == clt(s, k, t) + 1 <==> (exists|j: int| 0 <= j < s.len() && #[trigger] s[j].key == k && s[j].ts == t),
+{
+    lemma_clt(s, k, t); lemma_cle(s, k, t);
+    let a = clt(s, k, t); let b = cle(s, k, t);
+    if b < a { assert(kt_lt(s[b].key, s[b].ts, k, t)); assert(kt_lt(k, t, s[b].key, s[b].ts)); lemma_kt_trans(k, t, s[b].key, s[b].ts, k, t); }
+    if b > a + 1 {
+        // two entries that are neither below nor above (k, t) would both equal it
+        lemma_kt_total(s[a].key, s[a].ts, k, t); lemma_kt_total(s[a + 1].key, s[a + 1].ts, k, t);
+        assert(kt_lt(s[a].key, s[a].ts, s[a + 1].key, s[a + 1].ts));
+    }
+    if b == a + 1 { lemma_kt_total(s[a].key, s[a].ts, k, t); assert(s[a].key == k && s[a].ts == t); }
+    if exists|j: int| 0 <= j < s.len() && #[trigger] s[j].key == k && s[j].ts == t {
+        let j = choose|j: int| 0 <= j < s.len() && #[trigger] s[j].key == k && s[j].ts == t;
+        assert(a <= j) by { if j < a { assert(kt_lt(s[j].key, s[j].ts, k, t)); } }
+        assert(j < b) by { if b <= j { assert(kt_lt(k, t, s[j].key, s[j].ts)); } }
+    }
+}
+proof fn lemma_sum_root_others<C>(cs: Seq<C>, f: spec_fn(C) -> int, g: spec_fn(C) -> int, a: int, b: int)
+    requires cs.len() >= 1, f(cs[0]) == g(cs[0]) + a, forall|i: int| 1 <= i < cs.len() ==> f(#[trigger] cs[i]) == g(cs[i]) + b
+    ensures sumf(cs, f) == sumf(cs, g) + a + b * (cs.len() - 1)
+    decreases cs.len()
+{
+    if cs.len() > 1 {
+        assert forall|i: int| 1 <= i < cs.drop_last().len() implies f(#[trigger] cs.drop_last()[i]) == g(cs.drop_last()[i]) + b by { assert(cs.drop_last()[i] == cs[i]); }
+        assert(cs.drop_last()[0] == cs[0]);
+        lemma_sum_root_others(cs.drop_last(), f, g, a, b);
+        assert(cs.last() == cs[cs.len() - 1]);
+        assert(b * (cs.len() - 1) == b * (cs.len() - 2) + b) by (nonlinear_arith);
+    } else {
+        assert(sumf(cs.drop_last(), f) == 0 && sumf(cs.drop_last(), g) == 0);
+        assert(cs.last() == cs[0]);
+    }
+}
+// a Reverse cut: child c sits at position c.pos(), everything after it is `high`, nothing up to it is
+spec fn at_cut_rev<C: Cursor>(c: C, high: spec_fn(Ent) -> bool) -> bool {
+    &&& c.wf() && -1 <= c.pos() < c.ents().len()
+    &&& forall|i: int| 0 <= i <= c.pos() ==> !high(#[trigger] c.ents()[i])
+    &&& forall|i: int| c.pos() < i < c.ents().len() ==> high(#[trigger] c.ents()[i])
+}
+spec fn up_closed(high: spec_fn(Ent) -> bool) -> bool {
+    forall|x: Ent, y: Ent| #[trigger] high(y) && !kt_lt(x.key, x.ts, y.key, y.ts) ==> #[trigger] high(x)
+}
+proof fn lemma_heap_top_rev<C: Cursor>(cs: Seq<C>, high: spec_fn(Ent) -> bool)
+    requires
+        cs.len() >= 1, all_sorted(cs), up_closed(high),
+        allq(cs, |c: C| at_cut_rev(c, high)),
+        forall|i: int| 0 <= i < cs.len() ==> (#[trigger] cs[i]).key_spec() == key_of_child(cs[i]),
+        heap_from(cs, Comparator::Reverse, 0),
+    ensures
+        match key_of_child(cs[0]) {
+            Some(e) => allq(cs, |c: C| c.pos() == cle(c.ents(), e.0, e.1) - 1) && !high(cs[0].ents()[cs[0].pos()]),
+            None => allq(cs, |c: C| c.pos() == -1),
+        },
+{
+    let q = |c: C| at_cut_rev(c, high);
+    assert(q(cs[0]));
+    match key_of_child(cs[0]) {
+        Some(e) => {
+            let r = cs[0]; let er = r.ents()[r.pos()];
+            assert forall|i: int| 0 <= i < cs.len() implies (#[trigger] cs[i]).pos() == cle(cs[i].ents(), e.0, e.1) - 1 by {
+                let c = cs[i]; let s = c.ents();
+                assert(q(c));
+                lemma_root_least(cs, Comparator::Reverse, i);
+                assert forall|x: int| c.pos() < x < s.len() implies kt_lt(e.0, e.1, #[trigger] s[x].key, s[x].ts) by {
+                    if !kt_lt(e.0, e.1, s[x].key, s[x].ts) { assert(high(s[x]) && !kt_lt(er.key, er.ts, s[x].key, s[x].ts)); assert(high(er)); }
+                }
+                assert forall|x: int| 0 <= x <= c.pos() implies !kt_lt(e.0, e.1, #[trigger] s[x].key, s[x].ts) by {
+                    let cur = s[c.pos()];
+                    assert(!kt_lt(e.0, e.1, cur.key, cur.ts));
+                    if x < c.pos() && kt_lt(e.0, e.1, s[x].key, s[x].ts) {
+                        assert(kt_lt(s[x].key, s[x].ts, cur.key, cur.ts));
+                        lemma_kt_trans(e.0, e.1, s[x].key, s[x].ts, cur.key, cur.ts);
+                    }
+                }
+                lemma_cle_unique(s, e.0, e.1, c.pos() + 1);
+            }
+        }
+        None => {
+            assert forall|i: int| 0 <= i < cs.len() implies (#[trigger] cs[i]).pos() == -1 by {
+                assert(q(cs[i]));
+                lemma_root_least(cs, Comparator::Reverse, i);
+            }
+        }
+    }
+}
+// for an entry of the family, the sum of cle's is its rank plus one
+proof fn lemma_sum_cle<C: Cursor>(cs: Seq<C>, w: int, j: int)
+    requires mergeable(cs), 0 <= w < cs.len(), 0 <= j < cs[w].ents().len()
+    ensures sumf(cs, |c: C| cle(c.ents(), cs[w].ents()[j].key, cs[w].ents()[j].ts)) == grank(cs, cs[w].ents()[j].key, cs[w].ents()[j].ts) + 1
+{
+    let e = cs[w].ents()[j];
+    let f = |c: C| cle(c.ents(), e.key, e.ts);
+    let g = |c: C| clt(c.ents(), e.key, e.ts);
+    lemma_sum_diff_one(cs, f, g, w, e);
+}
+proof fn lemma_sum_diff_one<C: Cursor>(cs: Seq<C>, f: spec_fn(C) -> int, g: spec_fn(C) -> int, w: int, e: Ent)
+    requires
+        mergeable(cs), 0 <= w < cs.len(), cs[w].ents().contains(e),
+        f == (|c: C| cle(c.ents(), e.key, e.ts)), g == (|c: C| clt(c.ents(), e.key, e.ts)),
+    ensures sumf(cs, f) == sumf(cs, g) + 1
+{
+    let jw = choose|j: int| 0 <= j < cs[w].ents().len() && cs[w].ents()[j] == e;
+    assert forall|i: int| 0 <= i < cs.len() implies f(#[trigger] cs[i]) == g(cs[i]) + (if i == w { 1int } else { 0int }) by {
+        let s = cs[i].ents();
+        lemma_cle_clt(s, e.key, e.ts);
+        if i == w { assert(s[jw].key == e.key && s[jw].ts == e.ts); }
+        else if exists|j: int| 0 <= j < s.len() && #[trigger] s[j].key == e.key && s[j].ts == e.ts {
+            let j = choose|j: int| 0 <= j < s.len() && #[trigger] s[j].key == e.key && s[j].ts == e.ts;
+            assert(cs[i].ents()[j].key == cs[w].ents()[jw].key);
+        }
+    }
+    lemma_sum_indicator(cs, f, g, w);
+}
+proof fn lemma_sum_indicator<C>(cs: Seq<C>, f: spec_fn(C) -> int, g: spec_fn(C) -> int, w: int)
+    requires 0 <= w < cs.len(), forall|i: int| 0 <= i < cs.len() ==> f(#[trigger] cs[i]) == g(cs[i]) + (if i == w { 1int } else { 0int })
+    ensures sumf(cs, f) == sumf(cs, g) + 1
+    decreases cs.len()
+{
+    assert(cs.last() == cs[cs.len() - 1]);
+    if w == cs.len() - 1 {
+        assert forall|i: int| 0 <= i < cs.drop_last().len() implies f(#[trigger] cs.drop_last()[i]) == g(cs.drop_last()[i]) by { assert(cs.drop_last()[i] == cs[i]); }
+        lemma_sum_eq(cs.drop_last(), f, g);
+    } else {
+        assert forall|i: int| 0 <= i < cs.drop_last().len() implies f(#[trigger] cs.drop_last()[i]) == g(cs.drop_last()[i]) + (if i == w { 1int } else { 0int }) by { assert(cs.drop_last()[i] == cs[i]); }
+        lemma_sum_indicator(cs.drop_last(), f, g, w);
+    }
+}
+
 // std contract of slice::swap (ASSUMED)
 pub assume_specification<T> [<[T]>::swap] (s: &mut [T], a: usize, b: usize)
     requires a < old(s)@.len(), b < old(s)@.len(),
